@@ -96,11 +96,34 @@ def comparableLen : History → Store → Nat
   | (now, op) :: h, s =>
     if emptiesContainer now op s then 1 else 1 + comparableLen h (step dflt now op s).1
 
+/-- Redis as found in ONE respect only: an emptied list/hash vanishes together with its lifetime
+(`Exists` answers false, a later re-creation gets the default lifetime). -/
+def redisStep (now : Nat) (op : Op) (s : Store) : Store × Res :=
+  if emptiesContainer now op s then
+    match op.key with
+    | some k => (FMap.erase (step dflt now op s).1 k, (step dflt now op s).2)
+    | none => step dflt now op s
+  else step dflt now op s
+
+/-- Answers of the reference with vanishing empty containers, through the repositories' view. -/
+def vanishRun : History → Store → List String
+  | [], _ => []
+  | (now, op) :: h, s => render (repoView op (redisStep now op s).2) :: vanishRun h (redisStep now op s).1
+
+/-- Position-wise: wherever `want` and `vanish` agree, the observation must be `want`. -/
+def agreeWhereComparable : List String → List String → List String → Bool
+  | o :: os, w :: ws, v :: vs => (w != v || o == w) && agreeWhereComparable os ws vs
+  | [], [], [] => true
+  | _, _, _ => false
+
 /-- Redis backend vs the same reference, through the repositories' view (lifetimes of kv, list,
-hash and counter keys included), on the comparable prefix of the history. -/
+hash and counter keys included; every argument, also the degenerate ones: empty list, empty
+field, zero increment, empty key, empty string value).  EVERY answer is judged by the reference,
+except an answer on which the reference with vanishing empty containers (`vanishRun`) differs from
+the reference itself — Redis cannot represent an empty list/hash, and only `Exists`, the lifetime
+and what follows from the lifetime of such a key can differ. -/
 def holdsRepo (h : History) (obs : List String) : Bool :=
-  obs.length == h.length &&
-  obs.take (comparableLen h TTLStore.empty) == (repoRun h TTLStore.empty).take (comparableLen h TTLStore.empty)
+  agreeWhereComparable obs (repoRun h TTLStore.empty) (vanishRun h TTLStore.empty)
 
 /-- The Redis backend AS FOUND (known finding `redis-hash-int-float`): hash members are decoded
 with `encoding/json` into `interface{}`, so an integer member comes back as a float. Used only as
@@ -115,14 +138,6 @@ def renderRedis (op : Op) (r : Res) : String :=
   | .hall _, .val (.hash h) => "H{" ++ ",".intercalate
       ((FMap.toSorted (fun a b => decide (a < b)) h).map (fun p => renderField p.1 ++ "=" ++ renderRedisAtom p.2)) ++ "}"
   | _, r => render r
-
-/-- Redis as found: an emptied list/hash vanishes together with its lifetime. -/
-def redisStep (now : Nat) (op : Op) (s : Store) : Store × Res :=
-  if emptiesContainer now op s then
-    match op.key with
-    | some k => (FMap.erase (step dflt now op s).1 k, (step dflt now op s).2)
-    | none => step dflt now op s
-  else step dflt now op s
 
 def redisRun : History → Store → List String
   | [], _ => []
